@@ -34,6 +34,7 @@ type c17iCase struct {
 	Op         string        `json:"op"`
 	TargetDecl int           `json:"target_decl,omitempty"` // the import declaration the removed import stands in
 	ViaCLI     bool          `json:"via_cli,omitempty"`     // run through the command line with --skip-import-processing
+	TightBelow bool          `json:"tight_below,omitempty"` // the comment below the package clause stands directly below it although gofmt would put a blank line there
 
 	// build constraint lines, put in front of the file after it went
 	// through gofmt (which would rewrite them)
@@ -52,6 +53,11 @@ func c17iDraw(rt *rapid.T) *c17iCase {
 		return t
 	}
 	maybe := func(label string) bool { return rapid.IntRange(0, 2).Draw(rt, label) > 0 }
+	// One case in twelve is about the first declaration of a file without
+	// imports: comments tied to the package clause, with and without a blank
+	// line, in front of a function that two changes first rewrite and then
+	// replace.
+	sc := rapid.IntRange(0, 11).Draw(rt, "firstDeclarationScenario") == 0
 	var b strings.Builder
 	// build constraints: old style only, new style only, both, both but
 	// disagreeing
@@ -76,19 +82,19 @@ func c17iDraw(rt *rapid.T) *c17iCase {
 		fmt.Fprintf(&b, "// Package subject is a C17 subject. %s\n", tok("pkg-doc", ""))
 	}
 	b.WriteString("package subject")
-	if maybe("pkgtrail") {
+	if (!sc && maybe("pkgtrail")) || (sc && rapid.IntRange(0, 2).Draw(rt, "scTrail") == 0) {
 		fmt.Fprintf(&b, " // %s", tok("pkg-trailing", ""))
 	}
 	b.WriteString("\n")
-	if rapid.IntRange(0, 3).Draw(rt, "pkgBelow") == 0 {
+	if (!sc && rapid.IntRange(0, 3).Draw(rt, "pkgBelow") == 0) || (sc && rapid.IntRange(0, 3).Draw(rt, "scBelow") > 0) {
 		// a second comment tied to the package clause: on the line below it
 		b.WriteString(rapid.SampledFrom([]string{"//go:generate stringer -type=Kind ", "// see the package documentation "}).Draw(rt, "pkgBelowText") + tok("pkg-below", "") + "\n")
 	}
 	b.WriteString("\n")
-	if rapid.IntRange(0, 3).Draw(rt, "free1") == 0 {
+	if !sc && rapid.IntRange(0, 3).Draw(rt, "free1") == 0 {
 		fmt.Fprintf(&b, "// free-standing after the package clause %s\n\n", tok("free", ""))
 	}
-	if rapid.IntRange(0, 5).Draw(rt, "cgo") == 0 {
+	if !sc && rapid.IntRange(0, 5).Draw(rt, "cgo") == 0 {
 		fmt.Fprintf(&b, "// #include <stdlib.h> %s\nimport \"C\"\n\n", tok("cgo-preamble", "C"))
 	}
 	// import declarations
@@ -98,7 +104,7 @@ func c17iDraw(rt *rapid.T) *c17iCase {
 	pool := []spec{{"", "alpha/aa"}, {"", "beta/bb"}, {"dd", "delta/dd"}, {"", "eps/ee"}, {"", "gamma/cc"}, {"_", "omega/ff"}, {".", "psi/gg"}}
 	first := rapid.IntRange(0, len(pool)-1).Draw(rt, "first")
 	nSpecs := rapid.IntRange(1, min(5, len(pool)-first)).Draw(rt, "nSpecs")
-	if rapid.IntRange(0, 7).Draw(rt, "noImports") == 0 {
+	if sc || rapid.IntRange(0, 7).Draw(rt, "noImports") == 0 {
 		nSpecs = 0 // a file without imports: the patch adds the first one
 	}
 	specs := pool[first : first+nSpecs]
@@ -151,22 +157,30 @@ func c17iDraw(rt *rapid.T) *c17iCase {
 	}
 	curDecl = 0
 	b.WriteString("\n")
-	if rapid.IntRange(0, 2).Draw(rt, "free2") == 0 {
+	if !sc && rapid.IntRange(0, 2).Draw(rt, "free2") == 0 {
 		fmt.Fprintf(&b, "// free-standing after the imports %s\n\n", tok("free", "before-f"))
 	}
-	fmt.Fprintf(&b, "// f is documented. %s\nfunc f() {\n\tfoo() // %s\n\tkeep()\n}\n\n", tok("func-doc", "f"), tok("func-inner", "f"))
+	if (!sc && rapid.IntRange(0, 3).Draw(rt, "fDoc") > 0) || (sc && rapid.Bool().Draw(rt, "scDoc")) {
+		fmt.Fprintf(&b, "// f is documented. %s\n", tok("func-doc", "f"))
+	}
+	fmt.Fprintf(&b, "func f() {\n\tfoo() // %s\n\tkeep()\n}\n\n", tok("func-inner", "f"))
 	fmt.Fprintf(&b, "// g is not touched. %s\nfunc g() {\n\tkeep() // %s\n}\n", tok("func-doc", ""), tok("func-inner", ""))
 	cs.File = b.String()
 
 	var tg spec
 	op := rapid.IntRange(0, 6).Draw(rt, "op")
-	if len(specs) == 0 && !strings.Contains(cs.File, "import \"C\"") && rapid.Bool().Draw(rt, "renameThenReplace") {
+	if len(specs) == 0 && !strings.Contains(cs.File, "import \"C\"") && (sc || rapid.Bool().Draw(rt, "renameThenReplace")) {
 		// No imports: f is the first declaration. Two changes: the package
 		// is renamed (and f rewritten inside), then f is replaced by a
 		// declaration of another kind. The comments of the package clause
 		// stay what and where they are.
 		cs.Op = "rename-package-then-replace-first-declaration"
 		cs.Patch = "@@\n@@\n-package subject\n+package subject2\n\n-foo()\n+bar()\n\n@@\n@@\n-func f() {\n-  ...\n-}\n+var f = 1\n"
+		if rapid.Bool().Draw(rt, "addFirstImportInstead") {
+			// the first change adds the file's first import instead
+			cs.Op = "add-first-import-then-replace-first-declaration"
+			cs.Patch = "@@\n@@\n+import \"newer/path\"\n\n-foo()\n+path.Foo()\n\n@@\n@@\n-func f() {\n-  ...\n-}\n+var f = 1\n"
+		}
 		return cs
 	}
 	if len(specs) > 0 {
@@ -303,7 +317,7 @@ func c17iJudge(cs *c17iCase, out string) (found []c17iFinding) {
 	for _, c := range cs.Comments {
 		k := strings.Count(out, c.Tok+"\n") + strings.Count(out, c.Tok+" ")
 		ofTarget := cs.Target != "" && c.Path == cs.Target
-		if cs.Op == "rename-package-then-replace-first-declaration" && (c.Path == "f" || c.Kind == "free") {
+		if strings.HasSuffix(cs.Op, "-then-replace-first-declaration") && (c.Path == "f" || c.Kind == "free") {
 			// f is replaced; a free-standing comment in front of it is not
 			// tied to the package clause
 			ofTarget = true
@@ -363,7 +377,7 @@ func c17iJudge(cs *c17iCase, out string) (found []c17iFinding) {
 					wasBelow = true
 				}
 			}
-			if wasBelow && (i == 0 || !strings.HasPrefix(strings.TrimSpace(lines[i-1]), "package subject")) {
+			if wasBelow && !cs.TightBelow && (i == 0 || !strings.HasPrefix(strings.TrimSpace(lines[i-1]), "package subject")) {
 				detached("not on the line below the package clause")
 			}
 		case "pkg-doc":
@@ -446,6 +460,19 @@ func c17iRun(rt *rapid.T) {
 		return
 	}
 	cs.File = cs.buildLines + string(fm)
+	// gofmt puts a blank line between the package clause and a comment
+	// below it. Files are written without it, too ("package p" directly
+	// followed by a //go:generate line): in half of the cases it is taken
+	// out again. Whether the comment stays on that line is then not judged
+	// (printing the file puts the blank line back), that it stays is.
+	if strings.Contains(cs.File, "package subject\n\n") && rapid.Bool().Draw(rt, "tightBelow") {
+		for _, c := range cs.Comments {
+			if c.Kind == "pkg-below" {
+				cs.File = strings.Replace(cs.File, "package subject\n\n", "package subject\n", 1)
+				cs.TightBelow = true
+			}
+		}
+	}
 	cs.ViaCLI = rapid.IntRange(0, 3).Draw(rt, "viaCLI") == 0
 	found, judged := evalC17i(cs)
 	if !judged {
